@@ -10,6 +10,27 @@ PROP = 'C17'
 CLEARH = 'bls12_381::cofactor::ClearH'
 
 
+def identity_relations(pth):
+    """(order, other): the literals of a path must be identity tests of multiples [k]P of the input.  order = gcd of the k
+    whose test was answered true (0 when none was: the general path), other = the first literal of another kind."""
+    import tt
+    from math import gcd
+    order = 0
+    for key, truth, lab in tt.path_literals(pth):
+        k = None
+        if isinstance(key, tuple) and len(key) == 2 and key[0] == 'is_zero' and isinstance(key[1], tuple) and key[1] and key[1][0] == 'lin':
+            terms = dict(key[1][1])
+            if set(terms) == {'P'}:
+                k = terms['P']
+        if k is None:
+            return order, lab
+        if truth:
+            order = gcd(order, abs(k))
+            if k == 0:
+                return order, lab
+    return order, None
+
+
 def rules(fx, rep):
     impls = {}
     for i in fx.impls_of(CLEARH):
@@ -27,6 +48,7 @@ def rules(fx, rep):
         # fragment: every local callee reachable that lives in the same module (the chains)
         mod = 'bls12_381::cofactor::'
         I = exp.Interp(fx, 'add', inline=lambda p: p.startswith(mod))
+        I.fork_inlined = True
         try:
             res = I.run(path, [('byref', exp.Lin.atom('P'))])
         except (exp.NotDerivable, exp.Budget) as e:
@@ -36,8 +58,6 @@ def rules(fx, rep):
         # every path: the general one must be the fixed multiple; a path taken only for the identity (an is_zero test of
         # the input answered true) may return any multiple of the input, since [k]O = O = [h_eff]O
         import tt
-        P = exp.Lin.atom('P')
-        kz = ('is_zero', tt.lin_key(P))
         general = 0
         bad = None
         kk = None
@@ -45,19 +65,21 @@ def rules(fx, rep):
             if isinstance(ret, tuple) and ret and ret[0] == 'diverges':
                 continue
             v = outs.get(1)
-            lits = tt.path_literals(pth)
-            other = [l for l in lits if l[0] != kz]
-            if other:
-                bad = 'clear_h branches on %r (data-dependent control flow other than an identity test of the input): not a fixed multiple of the input' % (other[0][2],)
+            order, other = identity_relations(pth)
+            if other is not None:
+                bad = 'clear_h branches on %r (data-dependent control flow other than an identity test of a multiple of the input): not a fixed multiple of the input' % (other,)
                 break
-            ident = any(l[0] == kz and l[1] for l in lits)
             if not isinstance(v, exp.Lin) or not v.atoms() <= {'P'}:
                 bad = 'result is not a multiple of the input: %r' % (v,)
                 break
-            if ident:
+            kk = v.coeff('P')
+            if order:
+                # the path assumed [k]P = O for some k: the order of P divides `order`, multipliers count modulo it
+                if (kk - heff) % order:
+                    bad = 'on a path that assumed [%#x]P = O, clear_h multiplies by %#x, which differs from h_eff modulo that order' % (order, kk)
+                    break
                 continue
             general += 1
-            kk = v.coeff('P')
             if kk != heff:
                 bad = 'clear_h multiplies by %#x, RFC 9380 h_eff is %#x' % (kk, heff)
                 break
@@ -72,11 +94,37 @@ def rules(fx, rep):
         if p is not None and fx.body(p) is not None:
             rep.fn(p)
             I = exp.Interp(fx, 'add', inline=lambda q_: q_.startswith('bls12_381::cofactor::'))
+            I.fork_inlined = True
             try:
                 res = I.run(p, [('byref', exp.TOP), ('byref', exp.Lin.atom('P'))])
-                v = res[0][2].get(1) if len(res) == 1 else None
-                rep.check(isinstance(v, exp.Lin) and v.t == {'P': expected}, 'EXP', 'chain:%s' % name,
-                          'chain computes [|x|]', 'chain computes %r, expected [%#x]' % (v, expected), fx.fn(p)['span'])
+                # the general path computes the fixed multiple; a path taken only for the identity may return any
+                # multiple of the input
+                badc, ngen = None, 0
+                for pth_, ret_, outs_ in res:
+                    if isinstance(ret_, tuple) and ret_ and ret_[0] == 'diverges':
+                        badc = 'a path panics'
+                        break
+                    v = outs_.get(1)
+                    order, other = identity_relations(pth_)
+                    if other is not None:
+                        badc = 'the chain branches on %r' % (other,)
+                        break
+                    if not (isinstance(v, exp.Lin) and v.atoms() <= {'P'}):
+                        badc = 'chain computes %r, expected [%#x]' % (v, expected)
+                        break
+                    if order:
+                        if (v.coeff('P') - expected) % order:
+                            badc = 'on a path that assumed [%#x]P = O the chain computes %r, which differs from [%#x] modulo that order' % (order, v, expected)
+                            break
+                        continue
+                    ngen += 1
+                    if v.t != {'P': expected}:
+                        badc = 'chain computes %r, expected [%#x]' % (v, expected)
+                        break
+                if badc is None and not ngen:
+                    badc = 'no path handles a non-identity input'
+                rep.check(badc is None, 'EXP', 'chain:%s' % name,
+                          'chain computes [|x|] (any multiple of the input on identity-only paths)', badc or '', fx.fn(p)['span'])
             except (exp.NotDerivable, exp.Budget) as e:
                 rep.fail('EXP', 'chain:%s' % name, 'not derivable: %s' % e, fx.fn(p)['span'])
     # ---- arithmetic corollaries on constants (why [h_eff] lands in the order-r subgroup)
